@@ -146,10 +146,9 @@ def lt_cos(d, l1, l2, t):
     return (Fraction(d * d) < t * t * l1 * l2), amb
 
 
-def expected_features(case, obs, opt):
-    """-> (must, may): edge ids that must be flagged, and that may be flagged (band)."""
+def expected_features(case, t, opt):
+    """-> (must, may): edge ids that must be flagged, and that may be flagged (band). t = the mesh's tables."""
     de, und, border, loops = brute(case)
-    t = obs["tables"]
     eid = {tuple(e): i for i, e in enumerate(t["edges"])}
     must = {eid[e] for e in border}
     may = set(must)
@@ -216,54 +215,67 @@ def corner_candidates(A, order):
 
 
 def check_features(case, obs):
+    out = check_runs(case, obs["tables"], case["dets"], obs["dets"], "")
+    ses = case.get("session")
+    if ses and obs.get("session"):
+        so = obs["session"]
+        for on, mcase, t in ((0, case, obs["tables"]), (1, ses.get("other"), so.get("other_tables"))):
+            pairs = [(k, st, d) for k, (st, d) in enumerate(zip(ses["steps"], so["steps"])) if st["on"] == on]
+            if pairs and mcase is not None:
+                out += check_runs(mcase, t, [p[1] for p in pairs], [p[2] for p in pairs],
+                                  "reused-", ["run %d of ONE detector object (steps on meshes %s) " % (p[0] + 1, [x["on"] for x in ses["steps"]]) for p in pairs])
+    return out
+
+
+def check_runs(case, t, opts, dets, cls, tags=None):
+    """every run (fresh or of a re-used detector object) must give the containers of the mesh it ran on"""
     out = []
-    t = obs["tables"]
-    for opt, d in zip(case["dets"], obs["dets"]):
-        tag = "detector%s" % ({k: opt[k] for k in ("only_border", "flag_corners", "corner_order")},)
+    for k, (opt, d) in enumerate(zip(opts, dets)):
+        tag = (tags[k] if tags else "") + "detector%s" % ({k2: opt[k2] for k2 in ("only_border", "flag_corners", "corner_order")},)
         if "exc" in d:
-            out.append(("features/fails", "%s raised %s" % (tag, d["exc"])))
+            out.append((cls + "features/fails", "%s raised %s" % (tag, d["exc"])))
             continue
-        must, may = expected_features(case, obs, opt)
+        must, may = expected_features(case, t, opt)
         fe = set(d["fe"])
         if not (must <= fe <= may):
-            out.append(("features/edges", "%s flagged edges %s; the property demands %s (and allows %s more within round-off)"
+            out.append((cls + "features/edges", "%s flagged edges %s; the property demands %s (and allows %s more within round-off)"
                         % (tag, sorted(fe), sorted(must), sorted(may - must))))
             continue
         if len(d["fe"]) != len(fe):
-            out.append(("features/edges-dup", "%s: feature_edges has duplicates" % tag))
+            out.append((cls + "features/edges-dup", "%s: feature_edges has duplicates" % tag))
         E = t["edges"]
         fv = sorted({v for e in fe for v in E[e]})
         if d["fv"] != fv:
-            out.append(("features/vertices", "%s: feature_vertices %s, endpoints of the feature edges are %s" % (tag, d["fv"], fv)))
+            out.append((cls + "features/vertices", "%s: feature_vertices %s, endpoints of the feature edges are %s" % (tag, d["fv"], fv)))
         deg = sorted([v, sum(1 for e in fe if v in E[e])] for v in fv)
         if d["deg"] != deg:
-            out.append(("features/degrees", "%s: feature_degrees %s, expected %s" % (tag, d["deg"], deg)))
+            out.append((cls + "features/degrees", "%s: feature_degrees %s, expected %s" % (tag, d["deg"], deg)))
         loc = sorted([v, [i for i, e in enumerate(t["v2e"][v]) if e in fe]] for v in fv)
         if d["local"] != loc:
-            out.append(("features/local", "%s: local_feat_edges %s, expected %s" % (tag, d["local"], loc)))
+            out.append((cls + "features/local", "%s: local_feat_edges %s, expected %s" % (tag, d["local"], loc)))
         for v, l in d["local"]:
             if len(l) != dict(map(tuple, d["deg"])).get(v):
-                out.append(("features/local-vs-degree", "%s: vertex %d has %d local feature edges but degree %s"
+                out.append((cls + "features/local-vs-degree", "%s: vertex %d has %d local feature edges but degree %s"
                             % (tag, v, len(l), dict(map(tuple, d["deg"])).get(v))))
                 break
         if not opt["flag_corners"]:
             if d["corners"] is not None:
-                out.append(("features/corners-off", "%s: corners computed although flag_corners is off" % tag))
+                out.append((cls + "features/corners-off", "%s: corners computed although flag_corners is off" % tag))
         else:
             if d["corners"] is None or sorted(k for k, _ in d["corners"]) != fv:
-                out.append(("features/corners-domain", "%s: corners defined on %s, feature vertices are %s"
+                out.append((cls + "features/corners-domain", "%s: corners defined on %s, feature vertices are %s"
                             % (tag, d["corners"] and [k for k, _ in d["corners"]], fv)))
             else:
                 for v, c in d["corners"]:
                     cand = corner_candidates(angle_sum(case, v), opt["corner_order"])
                     if c not in cand:
-                        out.append(("features/corner-value", "%s: corner of vertex %d is %d, angle sum %.6f allows %s"
+                        out.append((cls + "features/corner-value", "%s: corner of vertex %d is %d, angle sum %.6f allows %s"
                                     % (tag, v, c, angle_sum(case, v), sorted(cand))))
                         break
         if opt["graph"] and "graph" in d:
             g = d["graph"]
             if "exc" in g:
-                out.append(("features/graph", "%s: feature graph: %s" % (tag, g["exc"])))
+                out.append((cls + "features/graph", "%s: feature graph: %s" % (tag, g["exc"])))
             else:
                 pos = {}
                 for i, p in enumerate(g["verts"]):
@@ -271,7 +283,16 @@ def check_features(case, obs):
                 want = sorted(sorted((tuple(t["coords"][E[e][0]]), tuple(t["coords"][E[e][1]]))) for e in fe)
                 got = sorted(sorted((tuple(g["verts"][a]), tuple(g["verts"][b]))) for a, b in g["edges"])
                 if g["nv"] != len(fv) or want != got:
-                    out.append(("features/graph", "%s: the feature graph is not the feature edge set" % tag))
+                    out.append((cls + "features/graph", "%s: the feature graph is not the feature edge set" % tag))
+                else:
+                    dv = {}
+                    for e in fe:
+                        for v in E[e]:
+                            dv[tuple(t["coords"][v])] = dv.get(tuple(t["coords"][v]), 0) + 1
+                    gd = {tuple(p): g["deg"][i] for i, p in enumerate(g["verts"])}
+                    if gd != dv:
+                        out.append((cls + "features/graph-degree", "%s: 'degree' attribute of the feature graph %s, expected %s"
+                                    % (tag, sorted(gd.values()), sorted(dv.values()))))
     return out
 
 
